@@ -42,8 +42,10 @@ def items(tier, seed):
             encs += [tuple(rnd.randrange(len(ENC)) for _ in part) for _ in range(3)]
         for e in encs:
             for n in ((2,) if tier == "quick" else (2, 3)):
-                if tier == "quick" and max(part) >= 2:
-                    n = 1     # three mutually different secrets: one symbolic character each in the quick tier
+                if max(part) >= 2 and (tier == "quick" or n == 3 or max(part) >= 3):
+                    n = 1     # three or more mutually different secrets: one symbolic character each
+                elif tier == "thorough" and n == 3 and max(part) >= 1:
+                    n = 2
                 out.append(Item("C08", "value_history", dict(part=list(part), enc=list(e), n=n), budget_s=400 if tier == "quick" else 2400, obligation="H1-value-histories"))
     # shaped secrets: hash-like values with symbolic bodies ($9$ values that do not decode included)
     for prefix, ns in (("$9$", (2, 4) if tier == "quick" else (2, 4, 5)), ("$1$a$", (2,)), ("$6$", (2,))):
